@@ -112,6 +112,9 @@ def check_C19(tier):
         fl = ["in/f%d.txt" % k for k in range(len(sizes))]
         files = {fl[k]: "".join("f%d line %d\n" % (k, i) for i in range(1, sizes[k] + 1)) for k in range(len(sizes))}
         jobs.append(("splitmany", dict(op="splitmany", files=fl, n=n), files, dict(kind="splitmany", sizes=list(sizes), n=n), 2))
+    # lines far longer than any internal buffer (5000 and 30000 characters; bufio.Scanner gives up beyond 64 KiB, loudly) are still ONE line each
+    longf = {"in/long.txt": "short 1\n" + "L" * 5000 + "\nshort 3\n" + "M" * 30000 + "\nshort 5\n"}
+    jobs.append(("splitmany", dict(op="splitmany", files=["in/long.txt"], n=2), longf, dict(kind="splitmany", sizes=[5], n=2), 2))
     def one(j):
         kind, case, files, c, buf = j
         return j, run_comp(case, files, bufsize=buf)
